@@ -26,6 +26,10 @@ class V:
     def __call__(s, *a):
         return None
 
+    def __bool__(s):
+        # every fifth component / factory / handler is FALSY (an empty container-like component is a legal one)
+        return s.i % 5 != 0
+
 
 class U(V):
     __hash__ = None
